@@ -220,7 +220,9 @@ func (b *bigmachineExecutor) addInvocationLocked(inv execInvocation) (bool, erro
 	// Each *Result argument represents a dependency on other invocations.
 	// Substitute each *Result argument for an invocationRef so that the
 	// result/dependency may be transported to worker machines. See
-	// (*worker).Compile.
+	// (*worker).Compile. The substitution is made in a copy: inv.Args shares
+	// its storage with the argument slice that the caller passed to Run.
+	inv.Args = append([]interface{}(nil), inv.Args...)
 	for i, arg := range inv.Args {
 		result, ok := arg.(*Result)
 		if !ok {
